@@ -61,6 +61,8 @@ def run_property(ctx, pid, n_quick=400, n_thorough=6000, seg_p=0.5, fields=None,
     scns = [s for s in scns if "error" not in s]
     lines = []
     for s in scns:
+        if s.get("ctor"):
+            lines += s["ctor"]["lines"]
         lines += s["lines"]
     rc, out = C.run_driver(ctx.driver, lines, timeout=1200)
     mos = E.split_model_output(out)
@@ -69,11 +71,34 @@ def run_property(ctx, pid, n_quick=400, n_thorough=6000, seg_p=0.5, fields=None,
     steps = 0
     distinct = set()
     unparsed = [l for l in out if l.startswith("?")]
+    # the output blocks: [constructor block,] session block per scenario
+    want = sum(2 if s.get("ctor") else 1 for s in scns)
+    cblocks = []
+    if len(mos) == want:
+        it = iter(mos)
+        mos = []
+        for s in scns:
+            cblocks.append(next(it) if s.get("ctor") else None)
+            mos.append(next(it))
+    else:
+        cblocks = [None] * len(scns)
+    ctor_stats = Counter()
     if rc != 0 or len(mos) != len(scns) or unparsed:
         divergences.append({"what": "model driver failed", "rc": rc, "unparsed": unparsed[:3], "scenarios": len(scns), "model_scenarios": len(mos)})
     for e in errors[:3]:
         divergences.append({"what": "scenario runner raised", "detail": e["error"], "index": e["index"]})
-    for s, mo in zip(scns, mos):
+    for s, mo, cb in zip(scns, mos, cblocks):
+        if cb is not None:
+            cn, cd = E.compare_ctor(s, cb)
+            steps += cn
+            ctor_stats["constructions_compared"] += 1
+            sup = s["cfg"].get("supply") or {}
+            for k_, v_ in sup.items():
+                if v_:
+                    ctor_stats["supplied_%s%s" % (k_, "" if v_ is True else ":" + str(v_))] += 1
+            if cd is not None:
+                divergences.append({"what": "constructor: SolutionTracks.__init__ and Model/EditCtor.construct_any disagree", "scenario": {"seed": s["seed"], "index": s["index"], "cfg": s["cfg"]},
+                                    "raw": s["ctor"]["lines"][:40], "fields": cd["fields"], "impl": cd.get("impl"), "model": cd.get("model")})
         nst, d = E.compare(s, mo)
         steps += nst
         ops = ops_of(s)
@@ -92,6 +117,15 @@ def run_property(ctx, pid, n_quick=400, n_thorough=6000, seg_p=0.5, fields=None,
             sig = None
             if prop == pid:
                 sig = "%s:%s" % (pid, line.split()[0] if line else "init")
+                if pid != "C10":
+                    # F-10b upstream: the ids were recomputed in mid-session and a later undo / redo re-applied ids of
+                    # the old numbering before this step - from such a state calls fail half-way with ValueError
+                    k = stepno - 1 if stepno >= 1 else len(ops)
+                    ren = [i for i, o in enumerate(ops[:k + 1]) if o.startswith("EN ") and set(o.split()[1].split(",")) & {"2", "3"}
+                           and o.split()[2] == "1" and s["obs"][i + 1]["ret"] == 0]
+                    if ren and any(o in ("U", "R") for o in ops[ren[0] + 1:k + 1]):
+                        sig = "%s:ids-recomputed-then-undo" % pid
+                        what = "after `%s` recomputed the ids and a later undo/redo restored ids of the old numbering (F-10b): %s" % (ops[ren[0]], what)
             elif pid == "C10" and prop in ("C08", "C09") and any(o.startswith(("EN ", "DIS ")) for o in ops[:max(stepno, 0)]):
                 # a value that is not the reference value although its feature is enabled, in a history with switches
                 sig = "C10:not-fresh-after-switch"
@@ -117,7 +151,7 @@ def run_property(ctx, pid, n_quick=400, n_thorough=6000, seg_p=0.5, fields=None,
     stats = {"scenarios": len(scns), "steps_compared": steps, "op_kinds": dict(kinds), "returns": dict(sorted(rets.items())),
              "refused_share": round(refused / max(1, steps), 3), "oracle_counters": dict(ost),
              "with_segmentation": sum(1 for s in scns if s["cfg"]["seg"]), "ndim4": sum(1 for s in scns if s["cfg"]["ndim"] == 4),
-             "runner_errors": len(errors)}
+             "runner_errors": len(errors), "constructor": dict(ctor_stats)}
     # keep the smallest failing scenarios first
     violations.sort(key=lambda v: len(v["input"]["ops"]))
     return {"evaluations": steps, "distinct_nontrivial": len(distinct),
